@@ -294,6 +294,16 @@ int main(void)
 			if (g_have == 3) ret = vbi3_raw_decoder_remove_services(g_rd3, (unsigned) sv);
 			else ret = vbi_raw_decoder_remove_services(&g_rd2, (unsigned) sv);
 			printf("ok %x", ret); dump_state(0); printf("\n");
+		} else if (H_IS(0, "fromsvc")) {
+			/* vbi_sampling_par_from_services: fam bit 0 = 625 line standards, bit 1 = 525 line standards */
+			long long fam, sv; vbi_sampling_par fsp; unsigned int max_rate = 0, ret; vbi_videostd_set vs;
+			if (h_ntok != 3 || !NUMU(1, fam) || fam > 3 || !NUMU(2, sv) || sv > 0xFFFFFFFFll) { printf("rej parse\n"); continue; }
+			memset(&fsp, 0, sizeof fsp);
+			vs = ((fam & 1) ? VBI_VIDEOSTD_SET_625_50 : 0) | ((fam & 2) ? VBI_VIDEOSTD_SET_525_60 : 0);
+			ret = vbi_sampling_par_from_services(&fsp, &max_rate, vs, (unsigned) sv);
+			printf("ok %x sc=%d fmt=%d rate=%d bpl=%d off=%d s0=%d c0=%d s1=%d c1=%d il=%d sy=%d max=%u\n", ret,
+			       fsp.scanning, (int) fsp.sampling_format, fsp.sampling_rate, fsp.bytes_per_line, fsp.offset,
+			       fsp.start[0], fsp.count[0], fsp.start[1], fsp.count[1], !!fsp.interlaced, !!fsp.synchronous, max_rate);
 		} else if (H_IS(0, "reset")) {
 			if (h_ntok != 1) { printf("rej parse\n"); continue; }
 			if (!g_have) { printf("rej nopar\n"); continue; }
